@@ -29,6 +29,18 @@
      "count_unrenewed"     - the decision counts shares reported by the survey
                              although the allocate_buckets that renews their
                              leases failed or was never sent.
+     "refuser_stays_writable"   - a server that refused the new shares it was
+                             asked for stays a writable candidate of the next
+                             placement (it is only remembered as "bad" for
+                             the round);
+     "stop_without_improvement" - the selector gives up when the happiness value
+                             of a round equals that of the round before, even
+                             though a placement just failed and a writable
+                             server is left.  (Both together: the upload fails
+                             although an untried server would have taken the
+                             share - XP_ReachableSucceeds; the first alone:
+                             the same server is asked for ever -
+                             XP_RoundsBounded.)
    With Deviations = {} every invariant below holds; the check also runs the
    model with each deviation switched on and expects TLC to name the
    invariant it breaks (the invariants are not vacuous). *)
@@ -52,11 +64,11 @@ VARIABLES mode, pre,          \* ground truth: server -> "writable" | "readonly"
           limbo,              \* allocate requests given up by a timeout that may still reach their server
           phase, ro, dead,    \* client: phase; trackers treated as read-only; servers whose survey failed
           ex, conf, bk,       \* client: survey answers; alreadygot of allocate answers; buckets it holds writers for
-          asked, roundBad, rounds, faults,
+          asked, roundBad, rounds, faults, lastEff,
           ackAlloc, abortSent, closed,   \* ghosts: every bucket ever acknowledged; buckets an abort was sent for; closed ok
           handed,              \* the pre-existing shares handed to set_shareholders
           result, report
-vars == <<mode, pre, St, renewed, out, limbo, phase, ro, dead, ex, conf, bk, asked, roundBad, rounds, faults,
+vars == <<mode, pre, St, renewed, out, limbo, phase, ro, dead, ex, conf, bk, asked, roundBad, rounds, faults, lastEff,
           ackAlloc, abortSent, closed, handed, result, report>>
 
 Dev(d) == d \in Deviations
@@ -68,7 +80,7 @@ Init ==
   /\ St = [s \in Servers |-> [fin |-> pre[s], inc |-> {}]]
   /\ renewed = NoShares /\ out = [s \in Servers |-> "none"] /\ limbo = {}
   /\ phase = "start" /\ ro = {} /\ dead = {} /\ ex = NoShares /\ conf = NoShares /\ bk = NoShares
-  /\ asked = NoShares /\ roundBad = FALSE /\ rounds = 0 /\ faults = 0
+  /\ asked = NoShares /\ roundBad = FALSE /\ rounds = 0 /\ faults = 0 /\ lastEff = -1
   /\ ackAlloc = {} /\ abortSent = {} /\ closed = {} /\ handed = {}
   /\ result = "none" /\ report = NoReport
 
@@ -92,13 +104,13 @@ StartSurvey ==
        ELSE /\ phase' = "survey" /\ UNCHANGED result
             /\ out' = [s \in Servers |-> IF s \in Targets THEN "get" ELSE "none"]
             /\ ro' = {s \in Targets : mode[s] = "readonly"}
-  /\ UNCHANGED <<mode, pre, St, renewed, limbo, dead, ex, conf, bk, asked, roundBad, rounds, faults, ackAlloc, abortSent, closed, handed, report>>
+  /\ UNCHANGED <<lastEff, mode, pre, St, renewed, limbo, dead, ex, conf, bk, asked, roundBad, rounds, faults, ackAlloc, abortSent, closed, handed, report>>
 
 SurveyAnswer(s) ==
   /\ phase = "survey" /\ out[s] = "get" /\ Turn(s, "get")
   /\ out' = [out EXCEPT ![s] = "none"]
   /\ ex' = [ex EXCEPT ![s] = FinalOn(St, s)]
-  /\ UNCHANGED <<mode, pre, St, renewed, limbo, phase, ro, dead, conf, bk, asked, roundBad, rounds, faults, ackAlloc, abortSent, closed, handed, result, report>>
+  /\ UNCHANGED <<lastEff, mode, pre, St, renewed, limbo, phase, ro, dead, conf, bk, asked, roundBad, rounds, faults, ackAlloc, abortSent, closed, handed, result, report>>
 
 \* error or timeout: no shares are planned for this server any more; it stays a (read-only) tracker
 SurveyError(s) ==
@@ -106,12 +118,12 @@ SurveyError(s) ==
   /\ faults' = faults + 1
   /\ out' = [out EXCEPT ![s] = "none"]
   /\ dead' = dead \cup {s} /\ ro' = ro \cup {s}
-  /\ UNCHANGED <<mode, pre, St, renewed, limbo, phase, ex, conf, bk, asked, roundBad, rounds, ackAlloc, abortSent, closed, handed, result, report>>
+  /\ UNCHANGED <<lastEff, mode, pre, St, renewed, limbo, phase, ex, conf, bk, asked, roundBad, rounds, ackAlloc, abortSent, closed, handed, result, report>>
 
 EndSurvey ==
   /\ phase = "survey" /\ Idle
   /\ phase' = "plan"
-  /\ UNCHANGED <<mode, pre, St, renewed, out, limbo, ro, dead, ex, conf, bk, asked, roundBad, rounds, faults, ackAlloc, abortSent, closed, handed, result, report>>
+  /\ UNCHANGED <<lastEff, mode, pre, St, renewed, out, limbo, ro, dead, ex, conf, bk, asked, roundBad, rounds, faults, ackAlloc, abortSent, closed, handed, result, report>>
 
 (* ---- steps 2-9: one round ------------------------------------------------------------ *)
 Writable == Targets \ (ro \cup dead)
@@ -128,7 +140,7 @@ Plan ==
           /\ asked' = [s \in Servers |-> IF s \in Q THEN AskedOf(m, s) \ bk2[s] ELSE {}]
           /\ out' = [s \in Servers |-> IF s \in Q THEN "alloc" ELSE "none"]
   /\ roundBad' = FALSE /\ rounds' = rounds + 1 /\ phase' = "round"
-  /\ UNCHANGED <<mode, pre, renewed, limbo, ro, dead, ex, conf, faults, ackAlloc, closed, handed, result, report>>
+  /\ UNCHANGED <<lastEff, mode, pre, renewed, limbo, ro, dead, ex, conf, faults, ackAlloc, closed, handed, result, report>>
 
 \* storage/server.py allocate_buckets
 ServerAllocated(s, want) == IF mode[s] = "writable" THEN AllocCandidates(St, s, want) ELSE {}
@@ -143,10 +155,10 @@ AllocAnswer(s) ==
         /\ conf' = [conf EXCEPT ![s] = already]
         /\ bk' = [bk EXCEPT ![s] = @ \cup allocated]
         /\ ackAlloc' = ackAlloc \cup ({s} \X allocated)
-        /\ ro' = IF failed THEN ro \cup {s} ELSE ro
+        /\ ro' = IF failed /\ ~Dev("refuser_stays_writable") THEN ro \cup {s} ELSE ro
         /\ roundBad' = (roundBad \/ failed)
   /\ out' = [out EXCEPT ![s] = "none"]
-  /\ UNCHANGED <<mode, pre, limbo, phase, dead, ex, asked, rounds, faults, abortSent, closed, handed, result, report>>
+  /\ UNCHANGED <<lastEff, mode, pre, limbo, phase, dead, ex, asked, rounds, faults, abortSent, closed, handed, result, report>>
 
 \* the request fails before the server executes it
 AllocError(s) ==
@@ -154,7 +166,7 @@ AllocError(s) ==
   /\ faults' = faults + 1
   /\ out' = [out EXCEPT ![s] = "none"]
   /\ ro' = ro \cup {s} /\ roundBad' = TRUE
-  /\ UNCHANGED <<mode, pre, St, renewed, limbo, phase, dead, ex, conf, bk, asked, rounds, ackAlloc, abortSent, closed, handed, result, report>>
+  /\ UNCHANGED <<lastEff, mode, pre, St, renewed, limbo, phase, dead, ex, conf, bk, asked, rounds, ackAlloc, abortSent, closed, handed, result, report>>
 
 \* the 15 s timer fires: for the client an error, but the request is still on its way
 AllocTimeout(s) ==
@@ -163,7 +175,7 @@ AllocTimeout(s) ==
   /\ out' = [out EXCEPT ![s] = "none"]
   /\ ro' = ro \cup {s} /\ roundBad' = TRUE
   /\ limbo' = limbo \cup {[srv |-> s, want |-> asked[s]]}
-  /\ UNCHANGED <<mode, pre, St, renewed, phase, dead, ex, conf, bk, asked, rounds, ackAlloc, abortSent, closed, handed, result, report>>
+  /\ UNCHANGED <<lastEff, mode, pre, St, renewed, phase, dead, ex, conf, bk, asked, rounds, ackAlloc, abortSent, closed, handed, result, report>>
 
 \* ... and is executed later; the client aborts whatever such an answer allocates (it is not going to use it)
 LateExec(q) ==
@@ -176,7 +188,7 @@ LateExec(q) ==
         /\ IF Dev("late_answer_leak")
              THEN St' = ApplyAllocate(St, s, allocated) /\ UNCHANGED abortSent
              ELSE UNCHANGED St /\ abortSent' = abortSent \cup ({s} \X allocated)
-  /\ UNCHANGED <<mode, pre, out, phase, ro, dead, ex, conf, bk, asked, roundBad, rounds, faults, closed, handed, result, report>>
+  /\ UNCHANGED <<lastEff, mode, pre, out, phase, ro, dead, ex, conf, bk, asked, roundBad, rounds, faults, closed, handed, result, report>>
 
 Fail(T, B, eff) ==
   /\ St' = AbortPairs(T, B) /\ abortSent' = abortSent \cup B
@@ -189,9 +201,10 @@ EndRound ==
      IN IF eff >= Happy
           THEN /\ phase' = "setsh" /\ handed' = Counted
                /\ UNCHANGED <<St, bk, abortSent, result, report>>
-          ELSE IF roundBad /\ Writable # {}
+          ELSE IF roundBad /\ Writable # {} /\ ~(Dev("stop_without_improvement") /\ eff = lastEff)
             THEN phase' = "plan" /\ UNCHANGED <<St, bk, abortSent, handed, result, report>>
             ELSE Fail(St, PairsOn(bk), eff) /\ bk' = NoShares /\ UNCHANGED handed
+  /\ lastEff' = IF Dev("stop_without_improvement") THEN EffectiveHappiness(Counted, PairsOn(bk)) ELSE lastEff
   /\ UNCHANGED <<mode, pre, renewed, out, limbo, ro, dead, ex, conf, asked, roundBad, rounds, faults, ackAlloc, closed>>
 
 (* ---- CHKUploader.set_shareholders ------------------------------------------------------ *)
@@ -200,14 +213,14 @@ Duplicate == ~OneServerPerShare(PairsOn(bk))
 SetShareholders ==
   /\ phase = "setsh" /\ ~Duplicate
   /\ phase' = "push"
-  /\ UNCHANGED <<mode, pre, St, renewed, out, limbo, ro, dead, ex, conf, bk, asked, roundBad, rounds, faults, ackAlloc, abortSent, closed, handed, result, report>>
+  /\ UNCHANGED <<lastEff, mode, pre, St, renewed, out, limbo, ro, dead, ex, conf, bk, asked, roundBad, rounds, faults, ackAlloc, abortSent, closed, handed, result, report>>
 
 \* NAMED DEVIATION (never intended): one share number on two trackers -> AssertionError, nothing is aborted
 DevDuplicateAllocationAssert ==
   /\ Dev("keep_stale_buckets")
   /\ phase = "setsh" /\ Duplicate
   /\ phase' = "done" /\ result' = "died"
-  /\ UNCHANGED <<mode, pre, St, renewed, out, limbo, ro, dead, ex, conf, bk, asked, roundBad, rounds, faults, ackAlloc, abortSent, closed, handed, report>>
+  /\ UNCHANGED <<lastEff, mode, pre, St, renewed, out, limbo, ro, dead, ex, conf, bk, asked, roundBad, rounds, faults, ackAlloc, abortSent, closed, handed, report>>
 
 (* ---- Encoder: push, close, shareholder loss ----------------------------------------------- *)
 Landlords == PairsOn(bk)
@@ -217,7 +230,7 @@ CloseOK(b) ==
   /\ St' = ApplyClose(St, b[1], b[2])
   /\ renewed' = [renewed EXCEPT ![b[1]] = @ \cup {b[2]}]
   /\ closed' = closed \cup {b}
-  /\ UNCHANGED <<mode, pre, out, limbo, phase, ro, dead, ex, conf, bk, asked, roundBad, rounds, faults, ackAlloc, abortSent, handed, result, report>>
+  /\ UNCHANGED <<lastEff, mode, pre, out, limbo, phase, ro, dead, ex, conf, bk, asked, roundBad, rounds, faults, ackAlloc, abortSent, handed, result, report>>
 
 \* a write or the close fails: Encoder._remove_shareholder aborts the bucket, forgets it, re-checks happiness
 CloseFails(b) ==
@@ -230,7 +243,7 @@ CloseFails(b) ==
           THEN Fail(St, (L \ closed) \cup {b}, eff) /\ bk' = NoShares
           ELSE /\ St' = T /\ bk' = [bk EXCEPT ![b[1]] = @ \ {b[2]}] /\ abortSent' = abortSent \cup {b}
                /\ UNCHANGED <<phase, result, report>>
-  /\ UNCHANGED <<mode, pre, renewed, out, limbo, ro, dead, ex, conf, asked, roundBad, rounds, ackAlloc, closed, handed>>
+  /\ UNCHANGED <<lastEff, mode, pre, renewed, out, limbo, ro, dead, ex, conf, asked, roundBad, rounds, ackAlloc, closed, handed>>
 
 Finish ==
   /\ phase = "push" /\ Landlords \ closed = {}
@@ -238,7 +251,7 @@ Finish ==
   /\ report' = [NoReport EXCEPT !.placed = Landlords, !.found = handed,
                                 !.pushed = Cardinality(SharesOfPairs(Landlords)),
                                 !.preexisting = Cardinality(SharesOfPairs(handed))]
-  /\ UNCHANGED <<mode, pre, St, renewed, out, limbo, ro, dead, ex, conf, bk, asked, roundBad, rounds, faults, ackAlloc, abortSent, closed, handed>>
+  /\ UNCHANGED <<lastEff, mode, pre, St, renewed, out, limbo, ro, dead, ex, conf, bk, asked, roundBad, rounds, faults, ackAlloc, abortSent, closed, handed>>
 
 Done == phase = "done" /\ limbo = {} /\ UNCHANGED vars
 
@@ -298,5 +311,5 @@ XP_RoundsBounded == rounds <= Cardinality(Targets) + 1
 Reachable == MaxMatching([s \in Targets |-> IF mode[s] = "writable" THEN Shares ELSE pre[s]])
 XP_UnreachableNeverSucceeds == result = "success" => Reachable >= Happy
 XP_ReachableSucceeds ==
-  (BestSpreadOnly /\ Deviations = {} /\ phase = "done" /\ faults = 0 /\ Order # <<>>) => (Reachable >= Happy <=> result = "success")
+  (BestSpreadOnly /\ phase = "done" /\ faults = 0 /\ Order # <<>>) => (Reachable >= Happy <=> result = "success")
 =============================================================================
